@@ -29,10 +29,10 @@ CLAIMED = {
         design_ref="DESIGN.md §4 C05",
         note="Partial: the unconditional lexer theorems cover identifiers/keywords, integers/decimals, simple quoted tokens and operators (other classes only under a lexer-computed boundary condition); EOF-position caveat (pos_inj hypothesis). Trusted: posreadgen's soundness claim."),
     "C06": dict(
-        technique="Coq induction on the ParseStatements model over scripts with arbitrary semicolon placement + lexer theorems for ';' inside strings and comments; joined-vs-individual harness",
+        technique="Coq induction on the ParseStatements model over scripts with arbitrary semicolon placement + simulation proof of delimiter-respect for the SELECT-core parser model + lexer theorems for ';' inside strings and comments + generated inventory of the Parser struct; joined-vs-individual harness; lexer and SELECT-core correspondences",
         text="C06: the driver model maps s1;...;sn (any extra/leading/trailing/doubled semicolons) to the per-statement results in order, threading nothing but remaining tokens and errors; for every byte string v the quoted spelling of v lexes to one STRING token (so a ';' inside never splits), and a separator of whitespace and complete comments (any bodies) is invisible to the token stream. Scripts of corpus/synthetic statements are compared statement by statement with the parts parsed alone.",
         design_ref="DESIGN.md §4 C06",
-        note="Partial: that the real statement parsers stop exactly at the ';' after a valid statement (delimiter-respect) is a hypothesis of the driver theorem, tested only."),
+        note="Delimiter-respect (followed by end of input or a semicolon the statement parser consumes exactly the statement and returns what it returns on it alone) is PROVED for the SELECT-core model (C06_fragment_*: forward simulation over every parse function of the fragment; the one EOF/semicolon asymmetry it exposed, the unclosed-parenthesis skip loop, is fixed in /repo); for statement kinds outside the fragment it remains a hypothesis of the driver theorem, tested by the script harness. Parser state: C06_parser_state_is_window_and_errors over the regenerated Parser struct."),
     "C07": dict(
         technique="Coq: shift law of a depth-oblivious printer calculus instantiated by a depth/indent-use inventory regenerated from source + tail-insensitivity on the SELECT printer model + C10's no-hidden-state obligation; embedding harness",
         text="C07_printer: every clean function of internal/explain denotes a trace of a printer calculus that cannot inspect depth (except two allow-listed `depth == 0` tests in explainExplainQuery), hence prints at depth d the depth-0 text shifted by d; the inventory of every use of depth/indent, every write and every (indent, depth) pair is regenerated from /repo and checked in the kernel; over the SELECT printer model a tail-free union prints identically under every union tail and each embedding context contains the query's rendering as a shifted block; no package-level or tree writes (C10). The parser half is covered by the harness: 14 embeddings per SELECT/WITH corpus query and composed queries, each explained after random histories and in fresh processes.",
